@@ -191,7 +191,16 @@ func (f *frame) callFunction(fn *ssa.Function, args []Val, bindings []Val, pos t
 		} else {
 			v.callees[key] = true
 		}
-		return f.applyContract(fc, args, ptypes, sig.Results(), pos)
+		var extra map[string]TV
+		if bindings != nil {
+			extra = map[string]TV{}
+			for i, fv := range fn.FreeVars {
+				if i < len(bindings) {
+					extra[fv.Name()] = TV{bindings[i], fv.Type()}
+				}
+			}
+		}
+		return f.applyContractX(fc, args, ptypes, sig.Results(), pos, extra)
 	}
 	if v.eng.effectFree(fn, nil) {
 		v.trusted["effect-free: "+key] = true
@@ -411,11 +420,18 @@ func (v *FnVerifier) contractEnv(fc *FuncContract, args []Val, ptypes []types.Ty
 type callSiteCounter map[string]int
 
 func (f *frame) applyContract(fc *FuncContract, args []Val, ptypes []types.Type, results *types.Tuple, pos token.Pos) Val {
+	return f.applyContractX(fc, args, ptypes, results, pos, nil)
+}
+
+func (f *frame) applyContractX(fc *FuncContract, args []Val, ptypes []types.Type, results *types.Tuple, pos token.Pos, extra map[string]TV) Val {
 	v := f.v
 	if len(fc.Params) != len(args) {
 		sfail("contract %s names %d parameters, the function has %d", fc.Key, len(fc.Params), len(args))
 	}
 	pre := v.contractEnv(fc, args, ptypes, f.cur)
+	for k, x := range extra {
+		pre.vars[k] = x
+	}
 	v.siteN[fc.Key]++
 	site := v.siteN[fc.Key]
 	// ---- requires
@@ -444,6 +460,9 @@ func (f *frame) applyContract(fc *FuncContract, args []Val, ptypes []types.Type,
 	}
 	// ---- ensures
 	penv := v.contractEnv(fc, args, ptypes, post)
+	for k, x := range extra {
+		penv.vars[k] = x
+	}
 	penv.old = pre
 	for i, name := range fc.Results {
 		if i < len(resVals) && name != "_" {
@@ -603,8 +622,8 @@ func inLoc(ml modLoc, ar arrRef, r string) string {
 			base = "(parent " + base + ")"
 		}
 		sl := ml.region
-		return fmt.Sprintf("(and (= (elemBase %s) %s) (<= %s (elemIdx %s)) (< (elemIdx %s) (+ %s %s)) (= %s %s))",
-			base, sl.B.S, sl.O.S, base, base, sl.O.S, sl.C.S, r, pathRef(fmt.Sprintf("(elem %s (elemIdx %s))", sl.B.S, base), ar.path))
+		return fmt.Sprintf("(and (= (birth %s) (birth %s)) (> %s 0) (= (elemBase %s) %s) (<= %s (elemIdx %s)) (< (elemIdx %s) (+ %s %s)) (= %s %s))",
+			r, sl.B.S, sl.C.S, base, sl.B.S, sl.O.S, base, base, sl.O.S, sl.C.S, r, pathRef(fmt.Sprintf("(elem %s (elemIdx %s))", sl.B.S, base), ar.path))
 	default:
 		return fmt.Sprintf("(= %s %s)", r, pathRef(ml.ref.S, ar.path))
 	}
@@ -658,13 +677,12 @@ func (v *FnVerifier) applyModifies(fc *FuncContract, pre *TEnv, st *State) *Stat
 	return out
 }
 
-// frameGoal: every array changed between entry and final differs only inside
-// the function's modifies clause (for objects that existed at entry).
-func (v *FnVerifier) frameGoal(entryEnv *TEnv, final *State) Term {
+// frameGoals: for every array changed between entry and final, "it differs only
+// inside the function's modifies clause (for objects that existed at entry)".
+func (v *FnVerifier) frameGoals(entryEnv *TEnv, final *State) map[string]Term {
 	locs := v.modLocs(v.fc, entryEnv)
 	ghostOK := map[string]bool{}
 	byArr := map[string][]modLoc{}
-	arOf := map[string]arrRef{}
 	for _, ml := range locs {
 		if ml.ghost != "" {
 			ghostOK["G:"+ml.ghost] = true
@@ -672,10 +690,9 @@ func (v *FnVerifier) frameGoal(entryEnv *TEnv, final *State) Term {
 		}
 		for _, ar := range ml.arrs {
 			byArr[ar.name] = append(byArr[ar.name], modLoc{ref: ml.ref, region: ml.region, allObjs: ml.allObjs, arrs: []arrRef{ar}})
-			arOf[ar.name] = ar
 		}
 	}
-	var goals []Term
+	goals := map[string]Term{}
 	for _, k := range final.keys() {
 		fin := final.arr[k]
 		if strings.HasPrefix(k, "It:") {
@@ -687,7 +704,7 @@ func (v *FnVerifier) frameGoal(entryEnv *TEnv, final *State) Term {
 			if fin.S == ent.S || ghostOK[k] {
 				continue
 			}
-			goals = append(goals, Eq(fin, ent))
+			goals[k] = Eq(fin, ent)
 			continue
 		}
 		ent := v.entryArr(k, s)
@@ -702,8 +719,8 @@ func (v *FnVerifier) frameGoal(entryEnv *TEnv, final *State) Term {
 		for _, ml := range byArr[k] {
 			ins = append(ins, inLoc(ml, ml.arrs[0], "r"))
 		}
-		goals = append(goals, T(SBool, "(forall ((r Ref)) (=> (and (< (birth r) %s) (not (or %s false))) (= (select %s r) (select %s r))))",
-			v.now0.S, strings.Join(ins, " "), fin.S, ent.S))
+		goals[k] = T(SBool, "(forall ((r Ref)) (=> (and (< (birth r) %s) (not (or %s false))) (= (select %s r) (select %s r))))",
+			v.now0.S, strings.Join(ins, " "), fin.S, ent.S)
 	}
-	return And(goals...)
+	return goals
 }
